@@ -21,6 +21,9 @@ def S.init : S := { cpu := Cpu.init, bus := flat0, snap := none, watch := [] }
 def byteOf (s : String) : Option Byte := (parseHex s).map (BitVec.ofNat 8)
 def wordOf (s : String) : Option Word := (parseHex s).map (BitVec.ofNat 16)
 
+def showSt (x : St) : String :=
+  s!"a={hex2 x.a} f={hex2 x.fByte} b={hex2 x.b} c={hex2 x.c} d={hex2 x.d} e={hex2 x.e} h={hex2 x.h} l={hex2 x.l} sp={hex4 x.sp} pc={hex4 x.pc} ime={b01 x.bus.ime} if={hex2 x.bus.ifl} halted={b01 x.halted}"
+
 /-- is the model about to fetch a new instruction (boundary, running, no interrupt sequence)? -/
 def willFetch (s : S) : Bool :=
   s.cpu.isFinished && !s.cpu.crashed && !s.cpu.regs.exited && !s.cpu.regs.halted && !s.cpu.regs.stopped &&
@@ -39,7 +42,7 @@ def oneCycle (s : S) : S × String :=
         let got := abs s'.cpu.regs s'.bus
         let memOk := s.watch.all fun a => want.rd a == got.rd a
         if want.same got && memOk then (s'', "ok")
-        else (s'', s!"MISMATCH pc={hex4 st.pc} op={hex2 (st.rd st.pc)} want a={hex2 want.a} f={hex2 want.fByte} pc={hex4 want.pc} sp={hex4 want.sp} got a={hex2 got.a} f={hex2 got.fByte} pc={hex4 got.pc} sp={hex4 got.sp} mem={b01 memOk}")
+        else (s'', s!"MISMATCH pc={hex4 st.pc} op={hex2 (st.rd st.pc)} documented: {showSt want} code: {showSt got} memory-agrees={b01 memOk}")
       | none => (s'', if s'.cpu.regs.exited then "ok" else "MISMATCH undefined-opcode")
     | none => (s', "-")
   else (s', "-")
